@@ -242,11 +242,8 @@ func (t *WSTransport) getOrDial(ctx context.Context, opts common.Options) (*wsCo
 
 	conn, err := t.dial(ctx, key, opts)
 
-	result.conn = conn
-	result.err = err
-	result.dialerGone = err != nil && ctx.Err() != nil
-	close(result.done)
-
+	// Update the registry before waking the waiters, so that a waiter that has to try again
+	// (see dialerGone) never finds this finished dial still registered.
 	t.mu.Lock()
 	delete(t.dialing, key)
 
@@ -256,6 +253,11 @@ func (t *WSTransport) getOrDial(ctx context.Context, opts common.Options) (*wsCo
 		t.conns[key] = conn
 	}
 	t.mu.Unlock()
+
+	result.conn = conn
+	result.err = err
+	result.dialerGone = err != nil && ctx.Err() != nil
+	close(result.done)
 
 	return conn, err
 }
@@ -313,6 +315,14 @@ func (t *WSTransport) dial(ctx context.Context, key uint64, opts common.Options)
 		)
 		_ = wsConn.Close(websocket.StatusProtocolError, "init failed")
 		return nil, fmt.Errorf("%w: %w", ErrInitFailed, err)
+	}
+
+	if err := ctx.Err(); err != nil {
+		// The dialling subscriber went away while the handshake was completing. A context that is
+		// cancelled during a read makes coder/websocket close the connection asynchronously, even
+		// if that read still succeeded, so this connection must not be pooled and shared.
+		_ = wsConn.CloseNow()
+		return nil, err
 	}
 
 	t.opts.Logger.Debug("wsTransport.dial",
